@@ -115,6 +115,7 @@ pub fn child(args: &[String]) -> i32 {
         "c18both" => c18::child_both(&args[1..]),
         "c16" => c16::child_main(&args[1..]),
         "c08crash" => c08::child_crash(&args[1..]),
+        "c08global" => c08::child_global(&args[1..]),
         _ => 2,
     }
 }
